@@ -166,6 +166,8 @@ type job struct {
 	rel         string
 	wall        time.Duration
 	mapOrder    bool
+	ld          *loaded
+	deadline    time.Time
 }
 
 func newJob(name string, fn *ssa.Function, cfg *runConfig) *job {
@@ -362,6 +364,14 @@ func (in *interp) relevant(atoms []*Term, all bool) ([]*Term, []*Term) {
 // solve decides PC ∧ extra restricted to the components that extra touches.
 // With wantModel it merges the model of those components into base.
 func (in *interp) solve(extra *Term, wantModel bool, base *Model) (Result, *Model) {
+	if p := in.path; p != nil {
+		if time.Since(p.start) > in.cfg.pathBudget {
+			panic(in.abort(abortBudget, "per-path wall-clock budget exceeded"))
+		}
+		if j := in.job(); j != nil && !j.deadline.IsZero() && time.Now().After(j.deadline) {
+			panic(in.abort(abortBudget, "harness wall-clock budget exceeded inside a path"))
+		}
+	}
 	s := in.solver
 	var xa []*Term
 	if extra != nil {
